@@ -92,6 +92,22 @@ def stream5(k0: int, k1: int, k2: int, k3: int, k4: int) -> bool:
     return _verdict([A[_pick(k, 0, 8)] for k in (k0, k1, k2, k3, k4)], 0)
 
 
+# longer two-sided / multi-part formulas assembled from side templates (reaches groupings left of '~', '|' on both sides, '.' with grouped lhs)
+LHS_T = ["a", "( a )", "( a + b )", "a | b", "( a ) | b", "a + b", "( ( a ) )", "a : b", "- 1 + a", "( a - 1 )"]
+RHS_T = ["b", "( b )", "b + c", "b | c", "b - 1", "0 + b | c", ".", ". - b", "( b + c ) : a", "b | c - 1", "( b | c )", "b * c"]
+
+
+def sides(i: int, j: int, ii: bool) -> bool:
+    """
+    pre: 0 <= i < 10 and 0 <= j < 12 and i == __SHARD__
+    post: _
+    """
+    i, j = _pick(i, 0, 9), _pick(j, 0, 11)
+    syms = LHS_T[i].split(" ") + ["~"] + RHS_T[j].split(" ")
+    v, d = pc.compare(syms, include_intercept=bool(ii), available=pc.AVAILABLE)
+    return v in ("agree", "dontcare")
+
+
 # ------------------------------------------------------------------------------------------------ sign runs (CH-sym)
 
 SIGN_ALPHABET = "+-:*/~|^"
@@ -316,6 +332,10 @@ def explain(fname, call):
             sym = "".join(SIGN_ALPHABET[c] for c in args[1:6][: args[0]])
             got = [list(ops)[0].symbol for _, ops in r.resolve(Token(sym, kind="operator"))]
             return f"sign-run: resolve({sym!r}) yields {got}, parity collapsing gives {_sign_reference(sym)}"
+        if fname == "sides":
+            syms = LHS_T[args[0]].split(" ") + ["~"] + RHS_T[args[1]].split(" ")
+            v, d = pc.compare(syms, include_intercept=bool(args[2]), available=pc.AVAILABLE)
+            return f"{v}: formula {' '.join(syms)!r} (include_intercept={bool(args[2])}): {d}"
         if fname == "identity":
             l, r = IDENTITIES[args[0]]
             sub = dict(x="abc"[args[1]], y="abc"[args[2]], z="abc"[args[3]])
